@@ -7,6 +7,8 @@ import (
 	"fmt"
 	"os"
 	"runtime/debug"
+	"strconv"
+	"sync/atomic"
 	"syscall"
 	"time"
 
@@ -22,6 +24,7 @@ type output struct {
 	Rule        string        `json:"rule"`
 	Assumptions []string      `json:"assumptions"`
 	Shard       int           `json:"shard"`
+	HasRace     bool          `json:"has_race"`
 	WallS       float64       `json:"wall_s"`
 	Stats       explore.Stats `json:"stats"`
 }
@@ -36,6 +39,7 @@ func main() {
 	replay := flag.String("replay", "", "replay file to execute")
 	budget := flag.Duration("budget", 0, "override the wall-clock budget")
 	list := flag.Bool("list", false, "list properties")
+	racePass := flag.Bool("racepass", false, "run the free-running bodies of the property (binary built with -race)")
 	unit := flag.String("unit", "", "run only the directly enumerated unit with this name (isolated sub-process mode)")
 	memLimit := flag.Uint64("rlimit-as", 16<<30, "address-space limit in bytes (0 = none)")
 	flag.Parse()
@@ -60,6 +64,32 @@ func main() {
 	}
 	if *replay != "" {
 		os.Exit(doReplay(p, *replay))
+	}
+	if *racePass {
+		if p.Race == nil {
+			fmt.Println("RACEPASS iterations=0 bodies=0")
+			return
+		}
+		seed, _ := strconv.Atoi(os.Getenv("VERIF_SEED"))
+		atomic.StoreUint32(&vrt.Perturb, uint32(seed)*2654435761|1)
+		b := *budget
+		if b == 0 {
+			b = 20 * time.Second
+		}
+		deadline := time.Now().Add(b)
+		bodies := p.Race()
+		iters := 0
+		for time.Now().Before(deadline) {
+			for _, rb := range bodies {
+				if err := rb.Run(iters); err != nil {
+					fmt.Printf("RACEPASS-FUNCTIONAL-ERROR body=%s iter=%d: %v\n", rb.Name, iters, err)
+					os.Exit(3)
+				}
+			}
+			iters++
+		}
+		fmt.Printf("RACEPASS iterations=%d bodies=%d\n", iters, len(bodies))
+		return
 	}
 	if *unit != "" {
 		// isolated mode: exit 0 = held, 3 = finding (printed), anything else = crash
@@ -113,7 +143,7 @@ func main() {
 		r.Explore(p.Units(thorough))
 	}
 	o := output{Property: p.ID, Level: p.Level, Technique: p.Technique, Rule: p.Rule, Assumptions: p.Assumptions,
-		Shard: *shard, WallS: time.Since(t0).Seconds(), Stats: r.Stats}
+		Shard: *shard, HasRace: p.Race != nil, WallS: time.Since(t0).Seconds(), Stats: r.Stats}
 	js, _ := json.Marshal(o)
 	if *out == "" {
 		os.Stdout.Write(js)
